@@ -392,7 +392,7 @@ META = dict(
 )
 
 MANIFEST = dict(
-    text="For C06: the real main.non_trivial (real force field files, real hydrogen placement/optimisation) on tripeptides with pH and the pKa of the side-chain group, the N-terminus and the C-terminus all symbolic reals, for every group x chain position x force field (and --ffout variants): final state = protonated iff pH < pKa when the real force field can parameterise that state (oracle: a reference run with the state forced), default state + warning otherwise, no residue dropped, total charge monotone in pH, and PROPKA's rows reach the residues they belong to (incl. a hidden chain end); warnings are observed at a logging handler behind pdb2pqr's own rate-limit filter, with and without the filter's limits already exceeded earlier in the process.",
+    text="For C06: the real main.non_trivial (real force field files, real hydrogen placement/optimisation) on tripeptides with pH and the pKa of the side-chain group, the N-terminus and the C-terminus all symbolic reals, for every group x chain position x force field (and --ffout variants): final state = protonated iff pH < pKa when the real force field can parameterise that state (oracle: a reference run with the state forced), default state + warning otherwise, no residue dropped, total charge monotone in pH, and PROPKA's rows reach the residues they belong to (incl. a hidden chain end); warnings are observed at a logging handler behind pdb2pqr's own rate-limit filter, with and without the filter's limits already exceeded earlier in the process. Round 4: PARSE with --neutraln --neutralc and the titratable residue at the (neutral) chain end.",
     note="Trusted: z3, symx proxies, the PROPKA stub's contract (row per group read from the PDB columns, arbitrary pKa). Structures are template tripeptides; residue numbers/chain ids concrete. Known findings (terminal groups never titrated; guard lists that let an unparameterisable state through) are listed in known_findings.json.",
     technique="symbolic execution of real code on z3 Real proxies (symx) + SMT verdict per path",
     design="DESIGN.md section 3 C06",
